@@ -161,6 +161,7 @@ def h_match(lc: int, ac: int, use_field: bool, vc: int, oc: int, nc: int, when: 
     c = vkopf.cell()
     kind = c['kind']
     lc, when, dup = vkopf.pin('lc', lc), vkopf.pin('when', when), vkopf.pin('dup', dup)
+    ac, use_field = vkopf.pin('ac', ac), vkopf.pin('use_field', use_field)
     vc, oc, nc = vkopf.pin('vc', vc), vkopf.pin('oc', oc), vkopf.pin('nc', nc)
     if vc and (oc or nc):
         return True          # value= is mutually exclusive with old=/new= (rejected by the decorator)
@@ -194,7 +195,30 @@ def h_match(lc: int, ac: int, use_field: bool, vc: int, oc: int, nc: int, when: 
 
 def obligations():
     obs = []
-    for k in (0, 1, 2):
-        obs += split(Ob('h_match', {'kind': k}, timeout=1200, twins=['matched'] if k == 1 else []), vc=list(range(6)), lc=[0, 1, 2, 3, 4, 5])
+    # (kind, lc, ac, use_field, vc, oc, nc, when, dup): the criteria of the declaration are pinned per cell; the object's
+    # label/annotation/old/new field values and "something else changed" stay symbolic.
+    def cell(kind, lc, ac, uf, vc, oc, nc, when, dup, tiers, extra=None):
+        c = {'kind': kind, 'pin': {'lc': lc, 'ac': ac, 'use_field': uf, 'vc': vc, 'oc': oc, 'nc': nc, 'when': when, 'dup': dup}}
+        c.update(extra or {})
+        return Ob('h_match', c, tiers=tiers, timeout=600)
+    quick = [(1, 0, 0, True, 0, 0, 0, 0, 0), (1, 0, 0, True, 1, 0, 0, 0, 0), (1, 0, 0, True, 3, 0, 0, 0, 2), (1, 0, 0, True, 0, 3, 2, 0, 0),
+             (1, 0, 0, True, 0, 5, 4, 0, 0), (1, 1, 3, False, 0, 0, 0, 1, 2), (1, 4, 5, True, 5, 0, 0, 0, 1), (1, 2, 0, True, 0, 1, 0, 2, 0),
+             (0, 0, 0, True, 2, 0, 0, 0, 0), (0, 5, 1, False, 0, 0, 0, 0, 1), (0, 3, 0, True, 1, 0, 0, 1, 0), (0, 0, 4, True, 4, 0, 0, 0, 0),
+             (2, 0, 0, True, 0, 2, 3, 0, 0), (2, 4, 2, True, 4, 0, 0, 0, 2), (2, 0, 0, True, 0, 0, 5, 1, 0)]
+    for q in quick:
+        obs.append(cell(*q, tiers=('quick',)))
+    obs.append(Ob('h_match', {'kind': 1}, tiers=('quick', 'thorough'), timeout=300, twins=['matched', 'rejected'], main=False))
+    fields = [(vc, 0, 0) for vc in range(6)] + [(0, oc, nc) for oc in range(6) for nc in range(6) if oc or nc]
+    for kind in (0, 1, 2):
+        for (vc, oc, nc) in fields:
+            if kind == 0 and (oc or nc):
+                continue
+            obs.append(cell(kind, 0, 0, True, vc, oc, nc, 0, 0, tiers=('thorough',)))
+        for lc in range(6):
+            for ac in (0, 2, 5):
+                obs.append(cell(kind, lc, ac, False, 0, 0, 0, 0, 0, tiers=('thorough',)))
+        for when in (1, 2):
+            for dup in (0, 1, 2):
+                obs.append(cell(kind, 1, 0, True, 1, 0, 0, when, dup, tiers=('thorough',)))
     obs.append(Ob('h_match', {'kind': 0, 'exclude_known': False, 'only_f9': True}, expect='counterexample', finding='F9', timeout=300))
     return obs
